@@ -403,6 +403,117 @@ pub fn run(ctx: &Ctx) -> i32 {
                 }
             }
         }
+        // long arrays and sibling names: indices 0..13 and far beyond the length (incl. values that
+        // wrap in 8 / 16 / 32 bits), field names that are prefixes, suffixes or case variants of each
+        // other or contain a space, a dash or a multi-byte character; every leaf uniquely labelled
+        if shard == 2 % shards {
+            let names = ["a", "ab", "a1", "A", "\u{e9}", "a\u{e9}", "b", "a b", "a-b", "a_b", "ba", "aa"];
+            let indices: Vec<usize> = vec![0, 1, 2, 3, 7, 8, 9, 10, 11, 12, 13, 15, 16, 99, 100, 255, 256, 257, 65536, 65537, 4294967296, 4294967297, 4294967306];
+            let mut lbl = 0u64;
+            let mut leaf = |pre: &str| -> DVal {
+                lbl += 1;
+                if lbl % 3 == 0 { DVal::UInt(5000 + lbl) } else { DVal::Str(format!("{}{}", pre, lbl)) }
+            };
+            let mut wide_docs: Vec<DVal> = vec![];
+            for variant in 0..4usize {
+                let mut root: Vec<(String, DVal)> = vec![];
+                for (ni, n) in names.iter().enumerate() {
+                    // leave some names out so that a sibling with a similar name is the only candidate
+                    if (ni + variant) % 4 == 3 {
+                        continue;
+                    }
+                    let v = match (ni + variant) % 3 {
+                        0 => DVal::Arr((0..(11 + variant * 2)).map(|i| if i % 4 == 1 { DVal::Obj(names.iter().filter(|m| (m.len() + i) % 3 != 0).map(|m| (m.to_string(), leaf("e"))).collect()) } else { leaf("x") }).collect()),
+                        1 => DVal::Obj(names.iter().enumerate().filter(|(mi, _)| (mi + variant) % 5 != 0).map(|(mi, m)| (m.to_string(), if mi % 3 == 0 { DVal::Arr((0..12).map(|_| leaf("y")).collect()) } else { leaf("o") })).collect()),
+                        _ => leaf("s"),
+                    };
+                    root.push((n.to_string(), v));
+                }
+                wide_docs.push(DVal::Obj(root));
+            }
+            let mut wpaths: Vec<Vec<Seg>> = vec![];
+            for n1 in names.iter() {
+                wpaths.push(vec![Seg { name: n1.to_string(), index: None }]);
+                for &i in &indices {
+                    wpaths.push(vec![Seg { name: n1.to_string(), index: Some(i) }]);
+                    for n2 in names.iter() {
+                        wpaths.push(vec![Seg { name: n1.to_string(), index: Some(i) }, Seg { name: n2.to_string(), index: None }]);
+                    }
+                }
+                for n2 in names.iter() {
+                    wpaths.push(vec![Seg { name: n1.to_string(), index: None }, Seg { name: n2.to_string(), index: None }]);
+                    for &i in &indices {
+                        wpaths.push(vec![Seg { name: n1.to_string(), index: None }, Seg { name: n2.to_string(), index: Some(i) }]);
+                    }
+                }
+            }
+            for (di, doc) in wide_docs.iter().enumerate() {
+                let ymap = to_yaml_map(doc);
+                let jval = JsonDoc(to_json(doc));
+                let jmap = match &jval.0 {
+                    serde_json::Value::Object(m) => m.clone(),
+                    _ => serde_json::Map::new(),
+                };
+                let smap: HashMap<String, StdVal> = to_std_doc(doc, di as u64, false);
+                let mobj = to_myobj(doc);
+                for p in &wpaths {
+                    let key = path_text(p);
+                    let want = walk(doc, p);
+                    let finds: [(&str, Option<DVal>); 5] = [
+                        ("yaml-mapping Object::find", Object::find(&ymap, &key).map(|v| from_value(&v))),
+                        ("json-map Object::find", Object::find(&jmap, &key).map(|v| from_value(&v))),
+                        ("json-value Document::find", Document::find(&jval.0, &key).map(|v| from_value(&v))),
+                        ("HashMap Object::find", Object::find(&smap, &key).map(|v| from_value(&v))),
+                        ("custom Object default find", Object::find(&mobj, &key).map(|v| from_value(&v))),
+                    ];
+                    for (name, got) in finds.iter() {
+                        rep.evaluations += 1;
+                        rep.count("wide_find_cells");
+                        let ok = match (want, got) {
+                            (None, None) => true,
+                            (Some(w), Some(g)) => same(w, g),
+                            _ => false,
+                        };
+                        if !ok {
+                            rep.violation(
+                                "find",
+                                &format!("c10-find-wide:{}:{}", name, if want.is_some() { "wrong-or-missing" } else { "fabricated" }),
+                                &format!("{}({:?}) on {} returned {} , the path addresses {}", name, key, doc.to_json_text(), got.as_ref().map(|g| g.to_json_text()).unwrap_or("None".into()), want.map(|w| w.to_json_text()).unwrap_or("nothing".into())),
+                                json!({"doc": doc.to_json_text(), "key": key, "expected": want.map(|w| w.to_json_text()), "observed": got.as_ref().map(|g| g.to_json_text())}),
+                            );
+                        }
+                    }
+                    if want.is_some() && p.iter().any(|s| s.index.map(|i| i >= 10).unwrap_or(false)) {
+                        rep.count("wide_index_ge_10_resolved");
+                        rep.nontrivial_key(&format!("W|{}|{}", di, key));
+                    }
+                    // rule level: the addressed leaf (or a label no path addresses) through the loader's key parser
+                    if !rng.chance(if ctx.quick() { 12 } else { 60 }) {
+                        continue;
+                    }
+                    let leafv = match want {
+                        Some(DVal::Str(s)) => RVal::Str(s.clone()),
+                        Some(DVal::UInt(u)) => RVal::Int(*u as i64),
+                        _ => RVal::Str("x1".into()),
+                    };
+                    for (form, ast) in [("dotted", dotted_rule(p, leafv.clone(), KMod::None)), ("dotted-any", dotted_rule(p, RVal::Str("*".into()), KMod::None)), ("nested", nested_rule(p, leafv.clone()))] {
+                        let Some(text) = ast.to_text() else { continue };
+                        let Some(rule) = eng::load_ok(&text) else { continue };
+                        let exp = rf.eval_rule(&ast, doc);
+                        rep.evaluations += 1;
+                        rep.count("wide_rule_cells");
+                        match eng::solve3(&rule, &ymap) {
+                            Ok(g) => {
+                                if refi::from_code(g) & exp == 0 {
+                                    rep.violation("rule", &format!("c10-rule-wide:{}", form), &format!("{} rule for path {:?} on {}: engine {} , reference {}", form, key, doc.to_json_text(), ts_name(refi::from_code(g)), ts_name(exp)), mon::case(&text, doc, None, json!(refi::verdict(exp)), json!(g == 1), json!({"form": form})));
+                                }
+                            }
+                            Err(pn) => rep.violation("panic", &format!("panic:{}", pn.sig()), &format!("path rule panicked: {}", pn.sig()), mon::case(&text, doc, None, json!("no-panic"), json!(pn.sig()), json!({}))),
+                        }
+                    }
+                }
+            }
+        }
         // arbitrary key strings: totality, and nothing fabricated
         let alpha: Vec<char> = "ab[]..012-9 é".chars().collect();
         for _ in 0..ctx.size(4000, 60000) {
